@@ -323,11 +323,12 @@ class Ctx:
             "violations": len(self.violations),
             "known_findings_seen": [k.get("what") for k in self.known_hits],
         }
-        os.makedirs(os.path.join(VERIF, "evidence"), exist_ok=True)
-        tmp = os.path.join(VERIF, "evidence", ".%s.tmp" % self.prop)
+        edir = os.path.join(VERIF, "evidence") if self.prop.startswith("C") else os.path.join(VERIF, "evidence", "extras")
+        os.makedirs(edir, exist_ok=True)
+        tmp = os.path.join(edir, ".%s.tmp" % self.prop)
         with open(tmp, "w") as f:
             json.dump(ev, f, indent=1, default=str)
-        os.replace(tmp, os.path.join(VERIF, "evidence", "%s.json" % self.prop))
+        os.replace(tmp, os.path.join(edir, "%s.json" % self.prop))
         self.cleanup()
         if self.violations:
             self.log("FAILED: %d violation(s)" % len(self.violations))
